@@ -103,7 +103,7 @@ CLAIMED["C11"] = {
     "technique": "Lean 4 proof (induction on the back-off loop with a potential function) + sim-kernel trace conformance on virtual time",
     "text": "c11_poll / c11_poll_bounded (no error, no blocking waitpid, at most 3 calls, no sleep), c11_already_known, "
             "c11_not_early (Ok(None) only after a clock reading >= start + d), c11_wait_timeout_calls (only WNOHANG waits, every "
-            "sleep <= 100 ms), c11_no_spin (at most 9 + d/100ms status checks for EVERY d and every exit time under a clock "
+            "sleep <= 100 ms), c11_none_only_after_a_status_check (\"still running\" is answered only right after a status check and a clock reading past the deadline: every nap is followed by a check), c11_no_spin (at most 9 + d/100ms status checks for EVERY d and every exit time under a clock "
             "obeying A6). The real wait_timeout runs on a virtual clock with exit instants placed before the call, inside each "
             "back-off interval, at the deadline and never; sleep arguments, waitpid counts and return times are compared with the "
             "model and checked by direct oracles (not early, bounded lateness, bounded checks).",
@@ -252,7 +252,7 @@ CLAIMED["C12"] = {
     "technique": "Lean 4 proof (induction over the spawn loop and over the dropped Vec<Popen>; holdings as a function End -> Option Bool) "
                  "+ trace conformance with real children and a hang watchdog",
     "text": "c12_every_child_reaped_once (every non-detached command is waited for exactly once, for every terminator and length), "
-            "c12_detached_never_waited, c12_communicate_never_waits, c12_adapter_drop_holds_nothing (at every wait of an adapter's drop "
+            "c12_detached_never_waited, c12_communicate_never_waits, c12_capture_holds_nothing_at_waits (both outcomes of the exchange; genuine defect F13 repaired by fix 1494514), c12_adapter_drop_holds_nothing (at every wait of an adapter's drop "
             "the parent holds no pipe end at all: stream_stdout/stderr/stdin of a command, stream_stdout/stdin of pipelines of any "
             "length), c12_popen_drop_holds_nothing, c12_nothing_left_open (no pipe end the library created is held once the handle is gone). Real runs: unbounded writers to stdout/stderr, cat waiting for EOF, early exits, "
             "200000-line producers, drop after 0/10/70000 bytes or everything read, detached or not; zombies via wait4 per child.",
@@ -278,7 +278,7 @@ CLAIMED["C14"] = {
             "the error is returned once, exactly commands 0..k-1 were started, each non-detached one is waited for exactly once, at "
             "every such wait the parent holds no pipe end of the attempt (except the shared-stderr reader in Pipeline::capture: "
             "c14_capture_keeps_stderr_reader proves that exception is real -- recorded as a known finding), and nothing of the attempt is "
-            "held on return; c14_nothing_held_at_waits; c14_communicate_never_waits.",
+            "held on return; c14_nothing_held_at_waits, c14_cleanup_waits_with_nothing_held (for arbitrary ends owned by the started Popens, e.g. a command's own stderr pipe: release all, then wait -- genuine defect F14 repaired by fix e678f50); c14_communicate_never_waits.",
     "note": PIPE_NOTE + " Known finding: C14 capture-start-failure-keeps-stderr-reader-while-waiting.",
 }
 NOT_CLAIMED = {}
